@@ -82,6 +82,30 @@ fn main() {
                 }
             }
         }
+        // second search engine (thorough tier): statistics and, if it found something, the
+        // case re-judged by the strict checker - libFuzzer is never a second oracle
+        let fuzz_report = std::path::Path::new("/verif/.build").join(format!("fuzz-{}.json", id));
+        if let Ok(txt) = std::fs::read_to_string(&fuzz_report) {
+            if let Ok(v) = serde_json::from_str::<serde_json::Value>(&txt) {
+                ctx.add_fuzz_stats(v.clone());
+                if v.get("crashed").and_then(|c| c.as_bool()) == Some(true) {
+                    let rp = v.get("replay").and_then(|r| r.as_str()).unwrap_or("");
+                    match std::fs::read_to_string(rp).ok().and_then(|s| serde_json::from_str::<serde_json::Value>(&s).ok()) {
+                        Some(body) if body.get("property").and_then(|p| p.as_str()) == Some(id.as_str()) => {
+                            let label = body.get("label").and_then(|l| l.as_str()).unwrap_or("").to_string();
+                            let case = body.get("case").cloned().unwrap_or(serde_json::Value::Null);
+                            let _ = props::replay(&ctx, &id, &label, case);
+                        }
+                        Some(_) => {} // a violation of the sibling property sharing the target
+                        None => {
+                            println!("INCONCLUSIVE property={} the fuzz target crashed without a violation record", id);
+                            mrverif::scratch::cleanup();
+                            std::process::exit(2);
+                        }
+                    }
+                }
+            }
+        }
         if !props::run(&mut ctx, &id) {
             eprintln!("unknown property {}", id);
             mrverif::scratch::cleanup();
